@@ -126,3 +126,20 @@ func SelectOrder(site string, n int) []int {
 	}
 	return order
 }
+
+// RandReader is an io.Reader of tape-drawn bytes (replaces crypto/rand.Reader
+// where the repository uses it for retry jitter). Outside a simulation it
+// yields zeros.
+type RandReader struct{}
+
+func (RandReader) Read(p []byte) (int, error) {
+	t := Cur()
+	for i := range p {
+		if t != nil && !t.IsDead() {
+			p[i] = byte(t.S.Tape.Draw("rand:"+t.Label, 256))
+		} else {
+			p[i] = 0
+		}
+	}
+	return len(p), nil
+}
